@@ -10,17 +10,18 @@ Driver for correspondence stream `op` (property C16).  Scalars are exact rationa
   krond   <ops: list op> <tensor>                  _apply_kronecker_dense
   kronl   <ops> <tensor>                           _apply_kronecker_linops
   kron    <ops> <tensor>                           apply_kronecker (dispatch)
-  kronop  N|T|H <ops> <tensor>                       KroneckerOperator(*ops)[.T].dot(x)
+  kronop  <word> <ops> <tensor>                       KroneckerOperator(*ops)[.T].dot(x)
   bdiag   N|T <ops> <tensor>                       BlockDiagonalOperator(*ops)[.T].dot(x)
   block   N|T <rows: list (list blk)> <tensor>     BlockOperator(rows)[.T].dot(x);  blk = - | z m n | <op>
   base    N|T M N <ops> <ranOut: list (a b)> <ranIn> <tensor>   BaseBlockOperator
   diag    <d: list rat> <tensor>   ident n <tensor>   null m n <tensor>
-  subsp   N|T <Ps> <Bs> <tensor>                   SubspaceOperator
+  subsp   <word> <Ps> <Bs> <tensor>                   SubspaceOperator
   csrs    nrows ncols <indptr> <indices> <data> a b <tensor>    CSRRowSlice
   csrr    nrows ncols <indptr> <indices> <data> <rows> <tensor> CSRRowSubset
   ksolve  <Bs: list op (square)> <tensor>          make_kronecker_solver with exact inverses
   fdiag   <Us> <invdiag> <tensor>                  fastdiag operator from given eigenvectors
   fdd     <lams: list (list rat)>                  the diagonal Σ_d kron(1,…,λ_d,…,1)
+<word> = N | a string over {T,H} applied left to right (`TH` = X.T.H); bdiag/block/base/subsp take a word too.
 answer: `<shape> <data>` or `err-…`.
 -/
 import Pyiga.Proto
@@ -61,6 +62,12 @@ def pBlk : P (Blk Rat) := do
   | "-" :: ts => set ts; pure .none
   | "z" :: ts => do set ts; let m ← nat; let n ← nat; pure (.null m n)
   | _ => do let o ← pOp; pure (.op o)
+
+/-- a word over {T, H} (`N` = empty word), applied left to right: `TH` = `X.T.H` -/
+def pWord : P (List Bool) := do
+  let t ← tok
+  if t == "N" then pure [] else
+  if t.toList.all (fun c => c == 'T' || c == 'H') then pure (t.toList.map (· == 'T')) else failure
 
 def pFlag : P Bool := do
   let t ← tok
@@ -108,29 +115,29 @@ def request : P String := do
   | "kronl" => do let ops ← list pOp; let x ← pTensor; pure (showR (applyKroneckerLinops ops x))
   | "kron" => do let ops ← list pOp; let x ← pTensor; pure (showR (applyKronecker ops x))
   | "kronop" => do
-      let t ← pFlag; let ops ← list pOp; let x ← pTensor
-      pure (showR (kronDot (if t then kronT ops else ops) x))
+      let w ← pWord; let ops ← list pOp; let x ← pTensor
+      pure (showR (kronDot (kronWord ops w) x))
   | "bdiag" => do
-      let t ← pFlag; let ops ← list pOp; let x ← pTensor
+      let w ← pWord; let ops ← list pOp; let x ← pTensor
       match blockDiagonal ops with
-      | .ok B => pure (showR ((if t then B.T else B).dot x))
+      | .ok B => pure (showR ((B.word w).dot x))
       | .error e => pure e.show
   | "block" => do
-      let t ← pFlag; let rows ← list (list pBlk); let x ← pTensor
+      let w ← pWord; let rows ← list (list pBlk); let x ← pTensor
       match blockOperator rows with
-      | .ok B => pure (showR ((if t then B.T else B).dot x))
+      | .ok B => pure (showR ((B.word w).dot x))
       | .error e => pure e.show
   | "base" => do
-      let t ← pFlag; let M ← nat; let N ← nat; let ops ← list pOp
+      let w ← pWord; let M ← nat; let N ← nat; let ops ← list pOp
       let ro ← list (pair nat nat); let ri ← list (pair nat nat); let x ← pTensor
       let B : BaseBlock Rat := { M := M, N := N, ops := ops, ranOut := ro, ranIn := ri }
-      pure (showR ((if t then B.T else B).dot x))
+      pure (showR ((B.word w).dot x))
   | "diag" => do let d ← list rat; let x ← pTensor; pure (showR (diagDot d x))
   | "ident" => do let n ← nat; let x ← pTensor; pure (showR (identDot n x))
   | "null" => do let m ← nat; let n ← nat; let x ← pTensor; pure (showR (nullDot m n x))
   | "subsp" => do
-      let t ← pFlag; let Ps ← list pOp; let Bs ← list pOp; let x ← pTensor
-      pure (showR (subspaceDot Ps Bs t x))
+      let w ← pWord; let Ps ← list pOp; let Bs ← list pOp; let x ← pTensor
+      pure (showR ((Subspace.word { Ps := Ps, Bs := Bs, isT := false } w).dot x))
   | "csrs" | "csrr" => do
       let nr ← nat; let nc ← nat; let ip ← list nat; let ix ← list nat; let d ← list rat
       let A : CSR Rat := { nrows := nr, ncols := nc, indptr := ip.toArray, indices := ix.toArray, data := d.toArray }
